@@ -52,6 +52,12 @@ func Open(r io.ReaderAt, size int64) (*XAR, error) {
 		toc:      toc,
 		heap:     io.NewSectionReader(r, base, 1<<62),
 	}
+	// the sizes come from the TOC; the blobs have to lie inside the file
+	for _, sig := range []*tocSignature{toc.Signature, toc.XSignature} {
+		if sig != nil && (sig.Size < 0 || sig.Offset < 0 || sig.Size > size || base+sig.Offset > size-sig.Size) {
+			return nil, errors.New("signature lies outside the archive")
+		}
+	}
 	if toc.Signature != nil {
 		s.ClassicSignature = make([]byte, toc.Signature.Size)
 		if _, err := r.ReadAt(s.ClassicSignature, base+toc.Signature.Offset); err != nil {
